@@ -49,7 +49,7 @@ SIG_CART_FULL = "symmetry/cartesian-full-core-cut-through-center"
 # SIG_SCALE_RAISES and SIG_CART_FULL were repaired in /repo (fix: commits d096cbf, 971daf0): searched again; SIG_COMP_MASS_SYM is a known finding
 SIG_FLUID_DENSITY = "density/zeroed-fluid-component-raises"
 _ALLOW_KNOWN = [False]  # set per case from case["known"] (defect replay files only)
-EXCLUDE_KNOWN = {SIG_FLUID_DENSITY: True, SIG_COMP_MASS_SYM: True, SIG_SCALE_RAISES: False, SIG_CART_FULL: False}
+EXCLUDE_KNOWN = {SIG_FLUID_DENSITY: False, SIG_COMP_MASS_SYM: True, SIG_SCALE_RAISES: False, SIG_CART_FULL: False}
 
 REL = 1e-10
 
@@ -331,7 +331,8 @@ def check_node(out, tree, node, snap, full=False, queries=(), sample=(), density
                       lambda: "%s: getMasses()[%s]=%r expected %r" % ((where,) + (bad[0] if bad else ("<keys>", sorted(ms)[:5], names[:5]))))
         # mass = density x volume
         if density and node.level == "component" and rho_e == 0.0 and not obj.containsSolidMaterial() and not obj.containsVoidMaterial():
-            # candidate finding: the material fallback of Component.density() reads ``density.__wrapped__``, which fluids do not have
+            # repaired finding (fix: 44ea46b): the material fallback of Component.density() read ``density.__wrapped__``, which
+            # fluids do not have.  Only "does not raise" is asserted; the fallback value stays outside the property as for solids
             if EXCLUDE_KNOWN.get(SIG_FLUID_DENSITY) and not _ALLOW_KNOWN[0]:
                 out.label("excluded:" + SIG_FLUID_DENSITY)
             else:
